@@ -110,6 +110,9 @@ def generate(tier, rng):
             for index in (True, False):
                 for d2c in [None] + ([ds[-1]["name"]] if len(ds) > 1 else []):
                     cases.append(dict(stream="exact", kind="direct", dims=ds, values=vals, index=index, dim_to_columns=d2c, sparse=False))
+                    # ... and the same table after a round trip through CSV text (headers come back as text)
+                    if d2c is None or ds[-1]["dtype"] is not None:
+                        cases.append(dict(cases[-1], via_csv=True))
             cases.append(dict(stream="exact", kind="import", dims=ds, values=vals,
                               layout=dict(where="columns", wide=None, header="names", omit_single=False, value_name="value", row_perm=None, col_perm=None, csv=False)))
             cases.append(dict(stream="exact", kind="import", dims=ds, values=vals,
@@ -144,6 +147,10 @@ def run_impl(case):
             return dict(kind="err", exc=type(e).__name__, msg=str(e)[:160], stage="to_df")
         if case.get("letters"):
             df = _with_letters(df, ds)
+        if case.get("via_csv"):
+            import io
+            import pandas as pd
+            df = pd.read_csv(io.StringIO(df.to_csv(index=case["index"])), float_precision="round_trip")
         if case["kind"] == "export":
             rows = dd.rows_from_to_df(ds, df, case["index"], case["dim_to_columns"])
             if case["sparse"]:
@@ -186,7 +193,7 @@ def oracle(case, obs):
             extra = [kk for kk in got if kk not in exp][:2]
             return f"to_df(index={case['index']}, dim_to_columns={case['dim_to_columns']}, sparse={case['sparse']}): missing {miss}, wrong {wrong}, extra {extra}"
         return None
-    desc = (f"to_df(index={case['index']}, dim_to_columns={case['dim_to_columns']}, sparse={case['sparse']})" if case["kind"] == "direct"
+    desc = (f"to_df(index={case['index']}, dim_to_columns={case['dim_to_columns']}, sparse={case['sparse']})" + (" through CSV text" if case.get("via_csv") else "") if case["kind"] == "direct"
             else f"layout {case['layout']}") + f" dims {[d['letter'] + ':' + str(d.get('dtype')) for d in ds]}"
     if case.get("relabel"):
         i, j = case["relabel"]
